@@ -199,7 +199,20 @@ func (s *Sim) afterBlock(qseed uint64) {
 			if len(ks) > 0 {
 				s.checkAsset(r, ks[rg.IntN(len(ks))], "sample")
 			} else {
-				s.checkAsset(r, resKey{as[rg.IntN(len(as))].Addr, basics.CreatableIndex(1000 + rg.IntN(40))}, "sample")
+				// probe an index that never held an asset; indexes are shared with applications, and asking
+				// for an asset at an application's index is a caller error, not a ledger answer
+				idx := basics.CreatableIndex(1000 + rg.IntN(40))
+				isApp := false
+				for rr := lo; rr <= hi; rr++ {
+					if st2 := s.states[rr]; st2 != nil {
+						if _, ok := st2.Creators[creatKey{idx, basics.AppCreatable}]; ok {
+							isApp = true
+						}
+					}
+				}
+				if !isApp {
+					s.checkAsset(r, resKey{as[rg.IntN(len(as))].Addr, idx}, "sample")
+				}
 			}
 		case 3:
 			ks := s.states[hi].sortedAppKeys()
